@@ -58,7 +58,22 @@ def evaluate_db(engine, db, preds):
         for name, n in preds:
             target = engine.ground(db, Term(name, *([None] * n)), target, label=target.LABEL_QUERY)
         res = get_evaluatable().create_from(target).evaluate()
-        return ("ok", {str(k): v for k, v in res.items()})
+        out = {str(k): v for k, v in res.items()}
+        # calls with a ground first argument go through the per-argument clause index; they are
+        # grounded into a formula of their own (the same atom may be named by both kinds of query)
+        target = LogicFormula()
+        n_ground = 0
+        for name, n in preds:
+            if n >= 1:
+                for const in ("a", "b", "c"):
+                    target = engine.ground(db, Term(name, Term(const), *([None] * (n - 1))), target,
+                                           label=target.LABEL_QUERY)
+                    n_ground += 1
+        if n_ground:
+            res = get_evaluatable().create_from(target).evaluate()
+            for k, v in res.items():
+                out["ground-call:" + str(k)] = v
+        return ("ok", out)
     except Exception as exc:  # noqa
         return classify_exception(exc)
 
@@ -119,8 +134,9 @@ def check_history(bi, hist):
             prog = {"clauses": clauses, "queries": [[n, ["X", "Y", "Z"][:k]] for n, k in preds], "evidence": []}
             ref = progcheck.reference(prog)
             if ref["kind"] == "answer":
-                sym, detail = progcheck.verdict(ref, got)
-                if sym and not progcheck.verdict(ref, fresh)[0]:
+                plain = lambda o: (o[0], {k: v for k, v in o[1].items() if not k.startswith("ground-call:")}) if o[0] == "ok" else o
+                sym, detail = progcheck.verdict(ref, plain(got))
+                if sym and not progcheck.verdict(ref, plain(fresh))[0]:
                     return None, ("child-differs-from-reference:" + sym, detail)
     state = (bi, tuple(tuple(op) for op in hist if op[0] == "add" or True))
     # canonical state: clause lists per level (histories that add the same clauses at the same
